@@ -373,6 +373,7 @@ func (it *Interp) obligation(id string, cond *Term, desc string) {
 	case "sat":
 		violated = true
 		cex := p.buildCex(id, "new", desc, vals)
+		cex.Extra["condition"] = trunc(cond.String(), 3000)
 		ex.mu.Lock()
 		st.Violated++
 		if len(ex.cexs) < 40 {
